@@ -4,6 +4,7 @@ import (
 	"fmt"
 	"strings"
 
+	"github.com/rminnich/go9p/vs"
 	"harness/wire"
 )
 
@@ -341,6 +342,7 @@ func c04Scenarios(tier string) []Scenario {
 		}
 	}
 	out = append(out, c04IsolationScenario(false), c04IsolationScenario(true))
+	out = append(out, c04CancelledScenario(false), c04CancelledScenario(true))
 	return out
 }
 
@@ -371,7 +373,123 @@ func c04IsolationScenario(dotu bool) Scenario {
 func init() {
 	register(&Property{ID: "C04", Level: "model_checking",
 		Technique: "explicit-state breadth-first search over protocol histories of a Go reference fid-table model, every transition executed on the real server (replay of the history on a fresh instance) and compared",
-		Rule:      "alphabet of ~60 requests over fid numbers {0,1,2} (attach/auth incl. bad afid, walks full/partial/failing/in place/to a used fid, open/create/read/write/stat/wstat/clunk/remove, each with implementation success or error); BFS to the stated depth from the empty connection, states deduplicated on model state + digest of the server's own fid table; after every event Tstat probes on each fid number; two-connection isolation runs. states = distinct canonical states, transitions = histories executed",
+		Rule:      "alphabet of ~60 requests over fid numbers {0,1,2} (attach/auth incl. bad afid, walks full/partial/failing/in place/to a used fid, open/create/read/write/stat/wstat/clunk/remove, each with implementation success or error); BFS to the stated depth from the empty connection, states deduplicated on model state + digest of the server's own fid table; after every event Tstat probes on each fid number; two-connection isolation runs; histories in which a request parked in the implementation is cancelled by Tflush (8 request kinds) and the table is probed, clunked and probed again. states = distinct canonical states, transitions = histories executed",
 		Assumptions: []string{"sequential histories on the default schedule (concurrency around fid destruction is explored by C07/C11)", "the reference model (harness/fidmodel.go) is a correct reading of the protocol rules"},
 		Scenarios:   c04Scenarios, QuickS: 100, ThoroughS: 1500})
+}
+
+// A request cancelled by Tflush while the implementation holds it must leave the
+// fid table as the history without it: its new fid is not valid, the fids it
+// named can still be clunked (and are then gone, with exactly one FidDestroy).
+func c04CancelledScenario(dotu bool) Scenario {
+	return Scenario{Name: fmt.Sprintf("cancelled-requests dotu=%v", dotu), Run: func(rc *RunCtx) *Result {
+		res := &Result{Exhaustive: true}
+		seen := map[string]bool{}
+		kinds := []string{"walk", "walk-in-place", "stat", "read", "open", "attach", "clunk", "create"}
+		for _, kind := range kinds {
+			var bad string
+			body := func() {
+				s := newSess(SrvOpt{Msize: 256, Dotu: dotu, Flush: true})
+				s.fs.FlushMode = "cancel"
+				s.fs.NoLateAnswer = true
+				s.rpcOK(twalk(s.tag(), 0, 1, "d"), wire.Rwalk)
+				var m *wire.Msg
+				newfid := uint32(wire.NOFID)
+				switch kind {
+				case "walk":
+					m, newfid = twalk(50, 1, 2, "h"), 2
+				case "walk-in-place":
+					m = twalk(50, 1, 1, "h")
+				case "stat":
+					m = &wire.Msg{Type: wire.Tstat, Tag: 50, Fid: 1}
+				case "read":
+					m = &wire.Msg{Type: wire.Tread, Tag: 50, Fid: 1, Count: 8}
+				case "open":
+					m = &wire.Msg{Type: wire.Topen, Tag: 50, Fid: 1, Mode: 0}
+				case "attach":
+					m, newfid = tattach(50, 2, wire.NOFID, "glenda", 7, dotu), 2
+				case "clunk":
+					m = &wire.Msg{Type: wire.Tclunk, Tag: 50, Fid: 1}
+				case "create":
+					m = &wire.Msg{Type: wire.Tcreate, Tag: 50, Fid: 1, Name: "cx", Perm: 0644, Mode: 1}
+				}
+				gate := vs.NewSem(0)
+				s.fs.Script[reqKey{0, 50, 0}] = &Action{Gate: gate}
+				s.c.Send(dotu, m)
+				vs.Idle()
+				if r := s.c.Rpc(&wire.Msg{Type: wire.Tflush, Tag: 51, Oldtag: 50}); r == nil || r.Type != wire.Rflush {
+					bad = fmt.Sprintf("Tflush answered by %v", r)
+					return
+				}
+				gate.Release()
+				vs.Idle()
+				stat := func(f uint32) string {
+					r := s.c.Rpc(&wire.Msg{Type: wire.Tstat, Tag: s.tag(), Fid: f})
+					switch {
+					case r == nil:
+						return "none"
+					case r.Type == wire.Rstat:
+						return "valid:" + r.Stat.Name
+					}
+					return r.Ename
+				}
+				if newfid != wire.NOFID {
+					if got := stat(newfid); got != "unknown fid" {
+						bad = fmt.Sprintf("the new fid of a cancelled %s is %q, the history never made it valid", kind, got)
+						return
+					}
+					// and the number is free
+					if r := s.c.Rpc(twalk(s.tag(), 0, newfid, "f")); r == nil || r.Type != wire.Rwalk {
+						bad = fmt.Sprintf("binding the fid number of a cancelled %s answered %v", kind, r)
+						return
+					}
+				}
+				if kind == "clunk" {
+					return // either outcome of a cancelled clunk is allowed
+				}
+				if got := stat(1); !strings.HasPrefix(got, "valid:d") {
+					bad = fmt.Sprintf("after a cancelled %s the fid it named is %q, it was bound to 'd' and nothing completed", kind, got)
+					return
+				}
+				if r := s.c.Rpc(&wire.Msg{Type: wire.Tclunk, Tag: s.tag(), Fid: 1}); r == nil || r.Type != wire.Rclunk {
+					bad = fmt.Sprintf("Tclunk after a cancelled %s answered %v", kind, r)
+					return
+				}
+				if got := stat(1); got != "unknown fid" {
+					bad = fmt.Sprintf("after a cancelled %s and a successful Tclunk the fid is still %q", kind, got)
+					return
+				}
+				n := 0
+				for _, e := range s.fs.Log {
+					if e.Kind == "destroy" && e.Token == 2 {
+						n++
+					}
+				}
+				if n != 1 {
+					bad = fmt.Sprintf("after a cancelled %s and a Tclunk, FidDestroy was reported %d times for the fid", kind, n)
+				}
+			}
+			x := vs.Run(nil, body, vs.Options{})
+			res.Evals++
+			res.Nontrivial++
+			res.States++
+			res.Transitions += 6
+			res.Traces++
+			if len(x.Panics) > 0 {
+				bad = "panic: " + x.Panics[0].Value + " in " + x.Panics[0].Frame
+			}
+			if len(x.Fails) > 0 {
+				bad = x.Fails[0]
+			}
+			if bad != "" {
+				sig := "C04/cancelled/" + sigWords(bad)
+				if !seen[sig] {
+					seen[sig] = true
+					res.Findings = append(res.Findings, Finding{Sig: sig, Msg: bad})
+				}
+			}
+		}
+		res.Samples = append(res.Samples, "walk to fid 1; request K parked in the implementation; Tflush (FlushOp cancels) -> Rflush; then probes, Tclunk, probes, destroy count; K in "+strings.Join(kinds, ","))
+		return res
+	}}
 }
